@@ -1279,6 +1279,27 @@ def register(an):
             except Exception:
                 if __import__('os').environ.get('LRS_DEBUG_FOLD'):
                     raise
+        if nm == 'position' and getattr(an, 'unroll_concrete', False) and len(args) == 2 and args[1][0] == 'closure':
+            # the same search reporting the index instead of the element (the predicate takes the item itself)
+            s3 = st.copy()
+            try:
+                items = concrete_items(an, it, frame, s3, t)
+                found, decided = None, items is not None
+                for i_, a in enumerate(items or []):
+                    r = call_closure(an, args[1], [a], frame, s3, t)
+                    if r is not None and r[0] == 'bool' and r[1][0] == 'const':
+                        if r[1][1]:
+                            found = i_
+                            break
+                    else:
+                        decided = False
+                        break
+                if decided:
+                    st.env, st.mem, st.lo, st.hi, st.sets, st.cons = s3.env, s3.mem, s3.lo, s3.hi, s3.sets, s3.cons
+                    return mk_some(V_const(found)) if found is not None else mk_none()
+            except Exception:
+                if __import__('os').environ.get('LRS_DEBUG_FOLD'):
+                    raise
         # run the element pipeline once on an abstract item (twice, to let state-carrying closures reach a fixpoint-ish)
         s2 = st.copy()
         item = iter_item(an, it, frame, s2, t)
